@@ -53,7 +53,13 @@ pub fn search_roots(seed: u64, n: usize, h: &ZobristHasher, swings: bool) -> Vec
         let base = match i % 6 {
             0 | 1 => starts[(i / 2) % starts.len()].clone(),
             2 => workload::synth_position(&mut rng),
-            3 if swings => workload::swing_position(&mut rng),
+            3 if swings => {
+                if rng.chance(1, 2) {
+                    workload::swing_position(&mut rng)
+                } else {
+                    workload::ep_horizon_position(&mut rng)
+                }
+            }
             4 if swings => {
                 if rng.chance(1, 2) {
                     workload::swing_position(&mut rng)
